@@ -2,9 +2,13 @@
 """print the markdown table of DESIGN 0.4 from seeded/*/meta.json"""
 import json, glob, os
 rows = []
+harm = []
 for d in sorted(glob.glob("/verif/seeded/*")):
     m = json.load(open(d + "/meta.json"))
     k = os.path.basename(d)
+    if m.get("kind") == "harmless":
+        harm.append((k, m))
+        continue
     pid = m.get("property") or k[:3]
     r = (m.get("results") or {}).get(f"{pid}:quick") or {}
     nb = r.get("noticed_by") or {}
@@ -24,3 +28,15 @@ for d in sorted(glob.glob("/verif/seeded/*")):
 print("| change | round | what it does | layers that notice it (final) | first pass | final |")
 print("|---|---|---|---|---|---|")
 print("\n".join(rows))
+if harm:
+    print()
+    print("Harmless refactorings (round 4; every result bit-identical by construction): all twenty quick checks run against each.")
+    print()
+    print("| change | what it does | checks that raise an alarm |")
+    print("|---|---|---|")
+    for k, m in harm:
+        s_ = " ".join(m.get("summary", "").split())
+        if len(s_) > 260:
+            s_ = s_[:257] + "..."
+        al = m.get("alarms")
+        print(f"| `{k}` | {s_.replace('|', '/')} | {'(not run yet)' if al is None else (', '.join(al) if al else 'none')} |")
